@@ -205,6 +205,22 @@ fn snapshot_lines(snap: &std::collections::BTreeMap<Vec<u8>, tree::SnapEntry>, l
     s
 }
 
+/// `--fd0-free`: every operation of the `root` suite runs with descriptor 0 closed, so that the first descriptor the
+/// kernel hands out during the operation is number 0 (a process started with stdin closed).
+pub static FD0_FREE: std::sync::atomic::AtomicBool = std::sync::atomic::AtomicBool::new(false);
+
+fn fd0_occupy() {
+    if unsafe { libc::fcntl(0, libc::F_GETFD) } < 0 {
+        let fd = unsafe { libc::open(b"/dev/null\0".as_ptr() as *const _, libc::O_RDONLY | libc::O_CLOEXEC) };
+        if fd > 0 {
+            unsafe {
+                libc::dup3(fd, 0, libc::O_CLOEXEC);
+                libc::close(fd);
+            }
+        }
+    }
+}
+
 /// One (tree, op) case on one backend.
 fn run_root_case(
     ctx: &mut Ctx,
@@ -215,6 +231,10 @@ fn run_root_case(
     emulated: bool,
     rflags: ResolverFlags,
 ) {
+    let fd0 = FD0_FREE.load(std::sync::atomic::Ordering::Relaxed);
+    if fd0 {
+        fd0_occupy();
+    }
     let (top, rootdir) = setup_case_dir(ctx, "case", spec);
     let unpriv = ctx.unpriv;
     if unpriv {
@@ -226,7 +246,7 @@ fn run_root_case(
     root.set_resolver_flags(rflags);
 
     let mut s = String::new();
-    s.push_str(&format!("case {id}\nmeta seed={seed} suite=root{}\n", if unpriv { " unpriv=1" } else { "" }));
+    s.push_str(&format!("case {id}\nmeta seed={seed} suite=root{}{}\n", if unpriv { " unpriv=1" } else { "" }, if fd0 { " fd0free=1" } else { "" }));
     s.push_str(&format!("tree {}\n", spec.entries.len()));
     s.push_str(&spec.lines());
     s.push_str(&op.line());
@@ -289,9 +309,17 @@ fn run_root_case(
             }
         }
         _ => {
+            if fd0 {
+                unsafe { libc::close(0) };
+            }
             let before = ops::fd_table();
             let (outcome, log) = ops::run_recorded(&root, op, None);
             let after = ops::fd_table();
+            if fd0 && !matches!(&outcome, Outcome::Fd(fd) if fd.as_raw_fd() == 0) {
+                // (a descriptor 0 left behind is in `after` and so in the fd table line; make room for the next case)
+                unsafe { libc::close(0) };
+                fd0_occupy();
+            }
             let ex = match &outcome {
                 Outcome::Fd(fd) => Some(fd.as_raw_fd()),
                 _ => None,
@@ -497,6 +525,9 @@ fn main() {
         unpriv: args.iter().any(|a| a == "--unpriv"),
     };
     PSL_AT_START.store(protected_symlinks(), Ordering::SeqCst);
+    if args.iter().any(|a| a == "--fd0-free") {
+        FD0_FREE.store(true, Ordering::SeqCst);
+    }
     if cmd == "fd-init" {
         // no warm-up: what does the *first* use of the library leave open in a fresh process?
         attack::suite_fd_init(&work, &mut ctx.out, no_openat2);
@@ -567,6 +598,10 @@ fn main() {
         "attack" => {
             let per: usize = arg_val(&args, "--per-case").and_then(|s| s.parse().ok()).unwrap_or(300);
             attack::suite_attack(&mut ctx, seed, n, per)
+        }
+        "attack-mut" => {
+            let per: usize = arg_val(&args, "--per-case").and_then(|s| s.parse().ok()).unwrap_or(200);
+            attack::suite_attack_mut(&mut ctx, seed, n, per)
         }
         "reopen-unshared" => attack::suite_reopen_unshared(&mut ctx),
         "reopen-fault" => procsuite::suite_reopen_fault(&mut ctx, seed),
